@@ -185,6 +185,24 @@ def case_oracle(spec):
         for w, b in zip(wrapped, before):
             if not np.array_equal(w, b, equal_nan=w.dtype.kind in "fc"):
                 return Failure("wrapped-data-modified", "", "bound"), info
+        # a second call with one input missing must be refused: nothing of
+        # the first call may linger in the program
+        needed = sorted(set(bp.expected_arguments) - bound)
+        if needed:
+            env2 = {k: v for k, v in env.items() if k != needed[0]}
+            try:
+                with np.errstate(all="ignore"):
+                    bp(**env2)
+            except TypeError:
+                pass
+            except Exception as e:  # noqa: BLE001
+                return Failure("missing-argument-not-refused",
+                               f"second call without '{needed[0]}': "
+                               f"{type(e).__name__}: {e}", "call"), info
+            else:
+                return Failure("missing-argument-not-refused",
+                               f"second call without '{needed[0]}' ran (with "
+                               "the value of the first call?)", "call"), info
         if not isinstance(res, dict) or sorted(res) != sorted(
                 {k for k, _ in spec["outputs"]}):
             return Failure("output-names", f"returned {type(res).__name__} "
@@ -214,11 +232,36 @@ def case_oracle(spec):
                                f"{got.shape}, declared {expr.shape}", op), info
             if idx in tainted and idx not in masks:
                 continue
+            # where pytato's declared dtype is NumPy's own, the generated
+            # code returns it (ones(3, float32) must not come back float64)
             with np.errstate(all="ignore"):
                 try:
                     gotc = got.astype(ref[idx].a.dtype)
                 except Exception:  # noqa: BLE001
                     gotc = got
+            # a result in a WIDER floating type than NumPy's is judged as it
+            # is: ones(3, float32) / 3 computed in float64 is another value
+            # than NumPy's float32 one, although it rounds to it
+            rd = ref[idx].a.dtype
+            if got.dtype.kind in "fc" and rd.kind in "fc" and \
+                    got.dtype.itemsize // (2 if got.dtype.kind == "c" else 1) \
+                    > rd.itemsize // (2 if rd.kind == "c" else 1) \
+                    and np.dtype(expr.dtype) == rd and got.shape == \
+                    ref[idx].a.shape and ref[idx].a.size:
+                wide = np.result_type(got.dtype, rd)
+                with np.errstate(all="ignore"):
+                    diff = np.abs(got.astype(wide) - ref[idx].a.astype(wide))
+                    tol = 8.0 * max(float(ref[idx].err), 0.0)
+                    m = masks.get(idx)
+                    bad = (diff > tol) & np.isfinite(diff)
+                    if m is not None:
+                        bad = bad & ~m if m.shape == bad.shape else bad
+                if bad.any():
+                    return Failure(
+                        "value-in-wider-type", f"{key} ({op}): returned as "
+                        f"{got.dtype} with values that are not NumPy's {rd} "
+                        f"ones (max difference {float(diff[bad].max()):.3e}, "
+                        f"allowed {tol:.1e})", op), info
             # (computed by NumPy on both sides, but possibly in another
             # precision path: allow the reference's error bound)
             r = ref[idx]
